@@ -397,7 +397,13 @@ def size_checks(cx):
                 raise AnalysisError(DATA + ': cannot find the element width of `%s`' % norm_stmt(m))
             prod = '%s[0] * %s[1] * (%s // 8)' % (S, S, nb)
         want = sym.norm('(%s) != ((end + 1) - begin) and (%s) != (end - begin)' % (prod, prod))
-        gs = [(g, p) for g, p in guards(fn, exc=['ValueError']) if fn.eqv(g.test, want) is not None and not p]
+        wants = [want]
+        # the same product spelled with the two extents the shape was built from: shape = (rows, columns)
+        sd = [v for d, v in fn.reaching_values(S, m)]
+        if len(sd) == 1 and isinstance(sd[0], ast.Tuple) and len(sd[0].elts) == 2:
+            p2 = prod.replace('%s[0]' % S, '(%s)' % ast.unparse(sd[0].elts[0])).replace('%s[1]' % S, '(%s)' % ast.unparse(sd[0].elts[1]))
+            wants.append(sym.norm('(%s) != ((end + 1) - begin) and (%s) != (end - begin)' % (p2, p2)))
+        gs = [(g, p) for g, p in guards(fn, exc=['ValueError']) if any(fn.eqv(g.test, w_) is not None for w_ in wants) and not p]
         dom = [g for g, p in gs if guard_dominates(fn, g, False, m)]
         ok = len(dom) == 1
         # shape variable not redefined between check and map
@@ -525,6 +531,11 @@ def supplemental_callargs(cx):
         fn.ob('CALLARGS', 'a supplemental/ANALYSIS segment is split with the primary segment\'s delimiter', ok, c, key='delim|%d' % sup.index(c))
         par = fn.parent.get(id(c))
         ok = isinstance(par, ast.Subscript) and sym.norm(par.slice) == ('num', 0)
+        if not ok and isinstance(par, ast.Assign) and par.value is c and len(par.targets) == 1 and isinstance(par.targets[0], ast.Tuple) \
+                and len(par.targets[0].elts) == 2 and isinstance(par.targets[0].elts[1], ast.Name):
+            # unpacked, the second part bound to a name nothing reads
+            junk = par.targets[0].elts[1].id
+            ok = not any(isinstance(n, ast.Name) and n.id == junk and isinstance(n.ctx, ast.Load) for n in fn.walk(None, into_nested=True))
         fn.ob('CALLARGS', 'only the dictionary of a supplemental-style read is used', ok, c, key='dict-only|%d' % sup.index(c))
     # supplemental TEXT: offsets from $BEGINSTEXT/$ENDSTEXT, merged into the primary dictionary
     st = [c for c in sup if 'stext' in ast.unparse(kwarg(c, 'begin'))]
@@ -541,7 +552,7 @@ def supplemental_callargs(cx):
               g[0] if g else c, detail='' if okg else 'condition is `%s`' % (norm_stmt(g[0].test) if g else '?'), key='stext-condition')
         sv = fn.cfg.stmt_of(c)
         up = [u for u in fn.calls() if isinstance(u.func, ast.Attribute) and u.func.attr == 'update' and dotted(u.func.value) == 'self._text']
-        okm = isinstance(sv, ast.Assign) and len(up) == 1 and sym.norm(up[0].args[0]) == sym.norm(sv.targets[0]) \
+        okm = isinstance(sv, ast.Assign) and len(up) == 1 and sym.norm(up[0].args[0]) == sym.norm(_dict_target(sv, c)) \
             and fn.in_body_of(fn.cfg.stmt_of(up[0]), g[0], 'body') if g else False
         fn.ob('CALLARGS', 'supplemental keywords are merged into the primary dictionary', bool(okm), up[0] if up else c, key='merge')
         # merge precedes every layout lookup
@@ -562,9 +573,17 @@ def supplemental_callargs(cx):
         fn.ob('CALLARGS', 'an unparsable ANALYSIS segment yields a warning and an empty dictionary, not other keywords', ok, c,
               key='analysis-tolerant|%d' % an.index(c))
         sv = fn.cfg.stmt_of(c)
-        ok = isinstance(sv, ast.Assign) and sym.norm(sv.targets[0]) == sym.norm('self._analysis')
+        ok = isinstance(sv, ast.Assign) and sym.norm(_dict_target(sv, c)) == sym.norm('self._analysis')
         fn.ob('CALLARGS', 'ANALYSIS keywords are kept apart from TEXT keywords', ok, c, key='analysis-store|%d' % an.index(c))
     return fn
+
+
+def _dict_target(sv, call):
+    """where the dictionary of `... = read_fcs_text_segment(...)[0]` or `d, unused = read_fcs_text_segment(...)` is stored"""
+    t = sv.targets[0]
+    if sv.value is call and isinstance(t, ast.Tuple) and len(t.elts) == 2:
+        return t.elts[0]
+    return t
 
 
 TOKEN_ITEMS = [
